@@ -157,6 +157,24 @@ def spd(rng, n, cond=10.0, cross=True, scale=1.0):
     return M
 
 
+def structure_information(rng, edges):
+    """Replace the (dense) information of a graph's edges by exactly structured matrices, as most datasets carry them: identity, c I, exactly
+    diagonal (positive: the problem stays well-posed).  Returns the mode label."""
+    mode = str(rng.choice(["identity", "scaled_identity", "diagonal", "mixed"]))
+    for e in edges:
+        A = np.array(e["info"], dtype=float)
+        n = A.shape[0]
+        m = mode if mode != "mixed" else str(rng.choice(["identity", "scaled_identity", "diagonal", "keep"]))
+        if m == "identity":
+            A = np.eye(n)
+        elif m == "scaled_identity":
+            A = np.eye(n) * float(rng.choice([0.5, 2.0, 10.0, 100.0]))
+        elif m == "diagonal":
+            A = np.diag(np.diag(A))
+        e["info"] = A.tolist()
+    return mode
+
+
 def info(rng, n, maxcond=1e3, scale_exp=0.0, cross=None, psd=False, extreme_scale=False):
     """Information matrix; returns (ndarray, labels)."""
     labels = set()
@@ -172,6 +190,27 @@ def info(rng, n, maxcond=1e3, scale_exp=0.0, cross=None, psd=False, extreme_scal
             sc = 10.0 ** rng.uniform(6, 12)
             labels.add("info:huge_scale")
     M = spd(rng, n, cond, cross, sc)
+    u2 = rng.random()
+    if u2 < 0.12:
+        # exactly structured matrices (what most datasets carry): identity, c I, exactly diagonal
+        st = str(rng.choice(["identity", "scaled_identity", "diagonal", "diagonal_integers"]))
+        if st == "identity":
+            M = np.eye(n)
+        elif st == "scaled_identity":
+            M = np.eye(n) * float(rng.choice([0.5, 2.0, 10.0, 100.0, 1e-3, float(10 ** rng.uniform(-2, 3))])) * sc
+        elif st == "diagonal":
+            M = np.diag(10.0 ** rng.uniform(-1, 3, size=n)) * sc
+        else:
+            M = np.diag(rng.integers(1, 1000, size=n).astype(float))
+        labels.add("info:exactly_" + st)
+        cross = False
+        if psd and n > 1 and rng.random() < 0.5:
+            M = M.copy()
+            M[int(rng.integers(n)), :] = 0.0
+            M = np.diag(np.diag(M))
+            labels.add("info:diagonal_with_a_zero_row")
+            labels.add("info:cross" if cross and n >= 3 else "info:blockdiag")
+            return M, labels
     if psd and n > 1:
         v = rng.normal(size=n)
         v /= np.linalg.norm(v)
@@ -320,6 +359,8 @@ def trajectory_graph(rng, k, n, n_loops=0, n_lm=0, meas_t=0.0, meas_r=0.0, init_
                 e["off"] = e["off"][:3] + [-x for x in e["off"][3:]]
     vertices = [{"id": i, "kind": k, "pose": p, "fixed": i == 0} for i, p in enumerate(init)]
     vertices += [{"id": n + m, "kind": kp, "pose": p, "fixed": False} for m, p in enumerate(linit)]
+    if cross is not True and rng.random() < 0.15:
+        structure_information(rng, edges)
     out = {"vertices": vertices, "edges": edges, "truth": truth + lms}
     if share:
         out["share"] = share
@@ -587,6 +628,8 @@ def cluster_graph(rng, kinds=None, size=(2, 6), noise_t=0.05, noise_r=0.03, init
             sc = g0 * (float(10 ** rng.uniform(-5, 5)) if mode == "per_edge" else 1.0)
             e["info"] = (np.array(e["info"]) * sc).tolist()
         labels.add("information_scales:" + mode)
+    if cross is not True and rng.random() < 0.15:
+        labels.add("information_exactly_structured:" + structure_information(rng, edges))
     if rng.random() < 0.15:
         # fixed flags given as 0/1 integers (the repository's own tests do this) - truthiness is what counts
         for v in vertices:
